@@ -25,12 +25,13 @@ var progress int64
 // spins. fn is that function, frame its file:line, dump the second goroutine dump.
 var OnBusy func(fn, frame, dump string)
 
-var goroutineRe = regexp.MustCompile(`^goroutine (\d+) [^\[]*\[(running|runnable)`)
+var goroutineRe = regexp.MustCompile(`^goroutine (\d+) [^\[]*\[(running|runnable|sync\.Mutex\.Lock|sync\.RWMutex\.R?Lock|semacquire)`)
 
-// busy returns goroutine id -> (function, file:line) of the innermost repository frame of
-// every goroutine that is running or runnable.
-func busy(dump string) map[string][2]string {
-	out := map[string][2]string{}
+// busy returns goroutine id -> (function, file:line, state) of the innermost repository
+// frame of every goroutine that is running / runnable, or waiting for a sync mutex (which
+// a bubble cannot wait out: virtual time stands still until the lock is released).
+func busy(dump string) map[string][3]string {
+	out := map[string][3]string{}
 	for _, blk := range strings.Split(dump, "\n\n") {
 		lines := strings.Split(blk, "\n")
 		m := goroutineRe.FindStringSubmatch(lines[0])
@@ -47,10 +48,10 @@ func busy(dump string) map[string][2]string {
 				if j := strings.Index(file, " "); j > 0 {
 					file = file[:j]
 				}
-				out[m[1]] = [2]string{fn, file}
+				out[m[1]] = [3]string{fn, file, m[2]}
 				break
 			}
-			if !strings.Contains(file, "/src/runtime/") {
+			if !strings.Contains(file, "/src/runtime/") && !strings.Contains(file, "/src/sync/") && !strings.Contains(file, "/src/internal/") {
 				break // innermost non-runtime frame is not repository code
 			}
 		}
@@ -83,8 +84,8 @@ func monitor() {
 			continue
 		}
 		for id, x := range a {
-			if y, ok := b[id]; ok && x[0] == y[0] && OnBusy != nil {
-				OnBusy(x[0], y[1], d2)
+			if y, ok := b[id]; ok && x[0] == y[0] && x[2] == y[2] && OnBusy != nil {
+				OnBusy(x[0], y[1]+" ["+y[2]+"]", d2)
 				return
 			}
 		}
